@@ -10,4 +10,4 @@ _orm.define(globals(), "C45", ("C45",), "merge",
             "seeded search over merge mixed with flush / commit / rollback / expire / expunge / close, autoflush on and off.  Sampled.",
             "only merge cascades along A.bs (and back through B.a) are exercised; merging onto a primary key changed in memory is not generated",
             weights={"merge": 14, "expunge": 2, "close": 2, "expire": 2, "commit": 3, "rollback": 2, "mk": 6, "mk_child": 5, "set": 3, "flush": 3,
-                     "requery": 2, "mut_data": 2, "delete": 1})
+                     "requery": 2, "mut_data": 2, "delete": 1, "m_ops": 3, "m_reload": 4, "set_k": 1})
